@@ -1,0 +1,27 @@
+//go:build verif
+
+// Contracts checked by /verif/govc (comment-only file; adds no code).
+
+package proto
+
+//@ pure func supportedKS(k signature.KeySpec) bool = (k.Type == signature.KeyTypeEC && (k.Size == 256 || k.Size == 384 || k.Size == 521)) || (k.Type == signature.KeyTypeRSA && (k.Size == 2048 || k.Size == 3072 || k.Size == 4096))
+//@ pure func encKS(k signature.KeySpec) plugin.KeySpec = ite(k.Type == signature.KeyTypeEC, ite(k.Size == 256, plugin.KeySpecEC256, ite(k.Size == 384, plugin.KeySpecEC384, plugin.KeySpecEC521)), ite(k.Size == 2048, plugin.KeySpecRSA2048, ite(k.Size == 3072, plugin.KeySpecRSA3072, plugin.KeySpecRSA4096)))
+//@ pure func hashOfKS(k signature.KeySpec) plugin.HashAlgorithm = ite(k.Size == 256 || k.Size == 2048, plugin.HashAlgorithmSHA256, ite(k.Size == 384 || k.Size == 3072, plugin.HashAlgorithmSHA384, plugin.HashAlgorithmSHA512))
+
+//@ func EncodeKeySpec
+//@ props C18 C07
+//@ ensures[C18.codec] (result1 == nil) == supportedKS(k)
+//@ ensures[C18.codec] result1 == nil ==> result == encKS(k)
+
+//@ func DecodeKeySpec
+//@ props C18 C07
+//@ ensures[C18.codec] result1 == nil ==> supportedKS(result) && encKS(result) == k
+//@ ensures[C18.codec] result1 != nil ==> result == zero(signature.KeySpec)
+
+// Decode(Encode(k)) == k for every supported key spec: the encoding is injective on the supported specs
+//@ lemma[C18.codec-inverse] forall(a, signature.KeySpec, forall(b, signature.KeySpec, supportedKS(a) && supportedKS(b) && encKS(a) == encKS(b) ==> a == b))
+
+//@ func HashAlgorithmFromKeySpec
+//@ props C18 C07
+//@ ensures[C07.hash-of-key] (result1 == nil) == supportedKS(k)
+//@ ensures[C07.hash-of-key] result1 == nil ==> result == hashOfKS(k)
